@@ -601,7 +601,11 @@ type trLoop struct {
 }
 
 func (f *trFn) push() { f.scopes = append(f.scopes, map[string]string{}) }
-func (f *trFn) pop()  { f.scopes = f.scopes[:len(f.scopes)-1] }
+func (f *trFn) pop() {
+	if n := len(f.scopes); n > 0 { // (empty only while a failure unwinds through deferred pops)
+		f.scopes = f.scopes[:n-1]
+	}
+}
 
 func (f *trFn) lookup(name string) (string, bool) {
 	for i := len(f.scopes) - 1; i >= 0; i-- {
@@ -3300,7 +3304,11 @@ func translateUnit(u trUnit) (out string) {
 				out = fmt.Sprintf("-- UNIT %s FAILED: %s\n\n", u.ns, strings.ReplaceAll(te.msg, "\n", " "))
 				return
 			}
-			panic(r)
+			// any other failure of the translator on this unit's source (a runtime error while unwinding, a shape of
+			// code it was never written for) is confined to the unit as well: the other units' theorems still stand
+			msg := strings.ReplaceAll(fmt.Sprint(r), "\n", " ")
+			fmt.Fprintf(os.Stderr, "TRANSLATE-PROBLEM unit=%s: translator error: %s\n", u.ns, msg)
+			out = fmt.Sprintf("-- UNIT %s FAILED: translator error: %s\n\n", u.ns, msg)
 		}
 	}()
 	{
